@@ -209,10 +209,16 @@ def run(rp, tree, tasks, plans):
     return bus, c
 
 
-def client_view(rp, bus, uids, order=None):
-    """feed the published state updates to a real TaskManager (real Task objects) in the given order"""
+class _PilotEnd(object):
+    def __init__(self, pid, state): self.uid, self.state = pid, state
+
+
+def client_view(rp, bus, uids, order=None, pilots=None, ends=None):
+    """feed the published state updates to a real TaskManager (real Task objects) in the given order.
+    pilots: uid -> pilot the task is bound to; ends: [(position, pilot id, final state)]: before the batch at that
+    position (len = after all) the end of that pilot is delivered to the real TaskManager._pilot_state_cb"""
     tm = stubs.make_tmgr(rp)
-    tasks = {u: stubs.make_task(rp, tm, u, state='TMGR_STAGING_INPUT_PENDING') for u in uids}
+    tasks = {u: stubs.make_task(rp, tm, u, state='TMGR_STAGING_INPUT_PENDING', pilot=(pilots or {}).get(u)) for u in uids}
     cbs = {u: [] for u in uids}
     for u, t in tasks.items():
         t.register_callback(lambda task, state, u=u: cbs[u].append(state))
@@ -220,9 +226,18 @@ def client_view(rp, bus, uids, order=None):
     if order is not None:
         batches = [batches[i] for i in order]
     errors = []
-    for b in batches:
+    def deliver_ends(pos):
+        for at, pid, state in (ends or []):
+            if at == pos:
+                try:
+                    tm._pilot_state_cb(_PilotEnd(pid, state))
+                except Exception as e:
+                    errors.append('pilot end: ' + repr(e))
+    for k, b in enumerate(batches):
+        deliver_ends(k)
         try:
             tm._update_tasks(copy.deepcopy(b))
         except Exception as e:
             errors.append(repr(e))
+    deliver_ends(len(batches))
     return {u: {'state': t.state, 'exit_code': t.exit_code, 'exception': t.exception, 'callbacks': cbs[u]} for u, t in tasks.items()}, errors
